@@ -80,7 +80,7 @@ fn scenarios(tier: Tier) -> Vec<(Program, usize)> {
     };
     let mut n = 0usize;
     for fl in [Fl::Sync, Fl::Async] {
-        let kinds: Vec<usize> = tier.pick(vec![0, 1, 2, 3, 6, 7], vec![0, 1, 2, 3, 4, 5, 6, 7]);
+        let kinds: Vec<usize> = tier.pick(vec![0, 1, 2, 3, 6, 7, 8, 9], vec![0, 1, 2, 3, 4, 5, 6, 7, 8, 9]);
         for kind in kinds {
             n += 1;
             let mut steps = vec![Step { op: w(1, 1, false, Algo::Sha256), fl: Fl::Sync }];
@@ -107,6 +107,25 @@ fn scenarios(tier: Tier) -> Vec<(Program, usize)> {
                     big.raw_metadata = Some(crate::gen::huge_raw_meta(30_000, 9));
                     steps.push(Step { op: Op::Write(big), fl: Fl::Async });
                     w(0, 0, true, ALGOS[n % 5])
+                }
+                8 => {
+                    // shared data again, with the temp area on another filesystem (content is
+                    // published by some fallback instead of a rename)
+                    steps.push(Step { op: w(1, 0, false, Algo::Sha256), fl: Fl::Sync });
+                    steps.push(Step { op: w(0, 0, false, Algo::Sha256), fl: Fl::Async });
+                    steps.push(Step { op: Op::TmpElsewhere, fl: Fl::Sync });
+                    w(0, 0, false, Algo::Sha256)
+                }
+                9 => {
+                    // shared data, written again with a declared size that is too large: the
+                    // commit is rejected whether or not it is interrupted, and nobody's data moves
+                    steps.push(Step { op: w(1, 0, false, Algo::Sha256), fl: Fl::Sync });
+                    steps.push(Step { op: w(0, 0, false, Algo::Sha256), fl: Fl::Sync });
+                    let mut v = WriteSpec::simple(Some(0), 0);
+                    v.entry = WEntry::Opts;
+                    v.chunks = vec![7];
+                    v.declare = Declare::Off(69);
+                    Op::Write(v)
                 }
                 7 => {
                     // the data being written is already stored and shared with the other key
@@ -279,6 +298,8 @@ impl Engine for C04 {
             });
             // --- observe, as a restarted process would -----------------------------------
             let new_entry: Option<Entry> = match &vstep.op {
+                // a commit that the size / integrity check rejects maps nothing: its "new state" is the old one
+                Op::Write(w) if w.entry == WEntry::Opts && !matches!(w.declare, Declare::None | Declare::Exact) => old_entry.clone(),
                 Op::Write(w) => Some(Model::expected_entry(&ctx, w, t_start, t_end)),
                 _ => None, // removal: new state = absent
             };
